@@ -432,14 +432,6 @@ func triggerClass(c *planCase) string {
 		if len(p.Changes) == 0 {
 			return "liquibase-empty-plan"
 		}
-		for _, ch := range p.Changes {
-			rs, _ := ch.ReverseStmts()
-			for _, r := range rs {
-				if strings.Contains(r, "\n") {
-					return "liquibase-multiline-rollback"
-				}
-			}
-		}
 	}
 	if s := c.spec; s != nil && s.d.name == "mysql" {
 		for _, f := range s.feats {
